@@ -10,9 +10,27 @@
      (packets <= 68 bytes carry 0: the code's condition)          C06_ip_id_small
    "the source is an address of the interface chosen by the first matching route entry";
    ErrNoRoute iff none                                            C06_find_route_first_match,
-                                                                 C06_route_selects_first_match, C06_route_none_iff *)
+                                                                 C06_route_selects_first_match, C06_route_none_iff
+   "every frame ... decodes under an independent RFC-derived decoder: length fields equal the actual
+   lengths, the IPv4 header checksum and the ... TCP checksums (with pseudo-header) verify, TCP
+   options are well-formed and padded ... addresses and ports are those of the socket"
+     TCP, any option list the encoders produce, IPv4 / IPv6     C06_tcp_frame_wf4, C06_tcp_frame_wf6
+     sendSynTCP, every MSS/WS/TS/SACK-permitted combination      C06_syn_frame_wf4
+     sendRaw, timestamps on/off, 0..3 (4) SACK blocks            C06_seg_frame_wf4
+     UDP (payload <= 65507 / 65527) - PARTIAL: computed checksum non-zero
+                                                                 C06_udp_frame_wf4_partial, C06_udp_frame_wf6_partial
+       refuted in full: a computed checksum of 0 is transmitted as 0 ("none", RFC 768)
+                                                                 C06_udp_zero_checksum_refuted
+     ICMPv4 / ICMPv6 echo replies                                C06_icmp4_echo_reply_wf, C06_icmp6_echo_reply_wf
+     ARP request / reply (RFC 826)                               C06_arp_request_wf, C06_arp_reply_wf
+   "on Ethernet links the destination MAC is the one resolved for the next hop" (the route's
+   RemoteLinkAddress, which Route.Resolve sets from the link-address cache, C12)   C06_eth_write_frame
+   All frame theorems assume what the callers establish: a unicast source address, a flag byte the
+   TCP state machine can produce (flag_sane), payload views whose non-final members have even length
+   (a single view in every code path of the stack itself; F7 otherwise), no checksum offload. *)
 From Coq Require Import ZArith List Bool.
-From NP Require Import Model.Bytes Model.Emit Proofs.EmitP.
+From NP Require Import Model.Bytes Model.Checksum Model.TcpOptions Proofs.ChecksumP Proofs.TcpOptionsP.
+From NP Require Import Model.Emit Proofs.EmitP.
 From NP Require Model.Rfc.
 Import ListNotations.
 Open Scope Z_scope.
@@ -62,3 +80,183 @@ Theorem C06_route_none_iff : forall table nics id laddr raddr,
    Forall (fun x => Rfc.eligible (map to_if nics) id laddr raddr (to_rt x) = false) table).
 Proof. exact route_none_iff. Qed.
 Print Assumptions C06_route_none_iff.
+
+Theorem C06_tcp_frame_wf4 : forall r sp dp data fl sq ak wnd items ttl c,
+  let opts := wire items in
+  let n := Z.of_nat (length opts) in
+  let L := 20 + n + vsize data in
+  rOffload r = false ->
+  length (rLocal r) = 4%nat -> length (rRemote r) = 4%nat -> bytes_ok (rLocal r) -> bytes_ok (rRemote r) ->
+  Rfc.src4_ok (rLocal r) = true ->
+  0 <= sp < 65536 -> 0 <= dp < 65536 -> 0 <= fl < 256 -> flag_sane fl = true ->
+  Forall wf_item items -> Forall (item_legal (Rfc.has fl Rfc.SYN)) items -> n <= 40 -> n mod 4 = 0 ->
+  Forall bytes_ok data -> nonfinal_even data -> 20 + L <= 65535 -> 1 <= ttl < 256 ->
+  exists hdr frame,
+    send_tcp r sp dp data fl sq ak wnd opts = Some hdr /\
+    ipv4_write r hdr data 6 ttl c = Some (frame, bucket_after (20 + L) c) /\
+    Rfc.wf_ipv4 false frame = true /\
+    Rfc.view_ip4 frame = Rfc.mkIV (rLocal r) (rRemote r) 6 ttl (id_of (20 + L) c) (hdr ++ concat data) /\
+    Rfc.view_tcp (hdr ++ concat data) =
+      Rfc.mkTV sp dp (w32 sq) (w32 ak) fl (w16 (clampw wnd)) 0 opts (concat data).
+Proof. exact tcp_frame_wf4. Qed.
+Print Assumptions C06_tcp_frame_wf4.
+
+Theorem C06_tcp_frame_wf6 : forall r sp dp data fl sq ak wnd items ttl,
+  let opts := wire items in
+  let n := Z.of_nat (length opts) in
+  let L := 20 + n + vsize data in
+  rOffload r = false ->
+  length (rLocal r) = 16%nat -> length (rRemote r) = 16%nat -> bytes_ok (rLocal r) -> bytes_ok (rRemote r) ->
+  nth 0 (rLocal r) 0 <> 255 ->
+  0 <= sp < 65536 -> 0 <= dp < 65536 -> 0 <= fl < 256 -> flag_sane fl = true ->
+  Forall wf_item items -> Forall (item_legal (Rfc.has fl Rfc.SYN)) items -> n <= 40 -> n mod 4 = 0 ->
+  Forall bytes_ok data -> nonfinal_even data -> L <= 65535 -> 1 <= ttl < 256 ->
+  exists hdr frame,
+    send_tcp r sp dp data fl sq ak wnd opts = Some hdr /\
+    ipv6_write r hdr data 6 ttl = Some frame /\
+    Rfc.wf_ipv6 false frame = true /\
+    Rfc.view_ip6 frame = Rfc.mkIV (rLocal r) (rRemote r) 6 ttl 0 (hdr ++ concat data) /\
+    Rfc.view_tcp (hdr ++ concat data) =
+      Rfc.mkTV sp dp (w32 sq) (w32 ak) fl (w16 (clampw wnd)) 0 opts (concat data).
+Proof. exact tcp_frame_wf6. Qed.
+Print Assumptions C06_tcp_frame_wf6.
+
+Theorem C06_syn_frame_wf4 : forall r mtu sp dp fl sq ak wnd o pool ttl c isAck,
+  let oe := eff_syn o mtu in
+  rOffload r = false ->
+  length (rLocal r) = 4%nat -> length (rRemote r) = 4%nat -> bytes_ok (rLocal r) -> bytes_ok (rRemote r) ->
+  Rfc.src4_ok (rLocal r) = true ->
+  0 <= sp < 65536 -> 0 <= dp < 65536 -> 0 <= fl < 256 -> flag_sane fl = true -> Rfc.has fl Rfc.SYN = true ->
+  wf_syn oe -> length pool = maxOptionSize -> 1 <= ttl < 256 ->
+  exists hdr frame c',
+    send_syn_tcp r mtu sp dp fl sq ak wnd o pool = Some hdr /\
+    ipv4_write r hdr [] 6 ttl c = Some (frame, c') /\
+    Rfc.wf_ipv4 false frame = true /\
+    Rfc.ivSrc (Rfc.view_ip4 frame) = rLocal r /\ Rfc.ivDst (Rfc.view_ip4 frame) = rRemote r /\
+    Rfc.ivPayload (Rfc.view_ip4 frame) = hdr /\
+    Rfc.tvSport (Rfc.view_tcp hdr) = sp /\ Rfc.tvDport (Rfc.view_tcp hdr) = dp /\
+    Rfc.tvSeq (Rfc.view_tcp hdr) = w32 sq /\ Rfc.tvAck (Rfc.view_tcp hdr) = w32 ak /\
+    Rfc.tvFlags (Rfc.view_tcp hdr) = fl /\ Rfc.tvPayload (Rfc.view_tcp hdr) = [] /\
+    parseSynOptions (Rfc.tvOpts (Rfc.view_tcp hdr)) isAck = Ok (syn_expected oe isAck).
+Proof. exact syn_frame_wf4. Qed.
+Print Assumptions C06_syn_frame_wf4.
+
+Theorem C06_seg_frame_wf4 : forall r sp dp data fl sq ak wnd (tsOk : bool) tsVal tsEcr (sackPermitted : bool) blocks pool ttl c,
+  rOffload r = false ->
+  length (rLocal r) = 4%nat -> length (rRemote r) = 4%nat -> bytes_ok (rLocal r) -> bytes_ok (rRemote r) ->
+  Rfc.src4_ok (rLocal r) = true ->
+  0 <= sp < 65536 -> 0 <= dp < 65536 -> 0 <= fl < 256 -> flag_sane fl = true -> Rfc.has fl Rfc.SYN = false ->
+  wf_opt tsVal tsEcr blocks -> (length blocks <= (if tsOk then 3%nat else 4%nat))%nat ->
+  length pool = maxOptionSize ->
+  Forall bytes_ok data -> nonfinal_even data -> vsize data <= 65455 -> 1 <= ttl < 256 ->
+  exists hdr frame c',
+    send_raw r sp dp data fl sq ak wnd tsOk tsVal tsEcr sackPermitted blocks pool = Some hdr /\
+    ipv4_write r hdr data 6 ttl c = Some (frame, c') /\
+    Rfc.wf_ipv4 false frame = true /\
+    Rfc.ivSrc (Rfc.view_ip4 frame) = rLocal r /\ Rfc.ivDst (Rfc.view_ip4 frame) = rRemote r /\
+    Rfc.ivPayload (Rfc.view_ip4 frame) = hdr ++ concat data /\
+    Rfc.tvSport (Rfc.view_tcp (hdr ++ concat data)) = sp /\ Rfc.tvDport (Rfc.view_tcp (hdr ++ concat data)) = dp /\
+    Rfc.tvSeq (Rfc.view_tcp (hdr ++ concat data)) = w32 sq /\ Rfc.tvAck (Rfc.view_tcp (hdr ++ concat data)) = w32 ak /\
+    Rfc.tvFlags (Rfc.view_tcp (hdr ++ concat data)) = fl /\
+    Rfc.tvWnd (Rfc.view_tcp (hdr ++ concat data)) = w16 (clampw wnd) /\
+    Rfc.tvPayload (Rfc.view_tcp (hdr ++ concat data)) = concat data /\
+    parseTCPOptions (Rfc.tvOpts (Rfc.view_tcp (hdr ++ concat data))) =
+      Ok (mkOpts tsOk (if tsOk then tsVal else 0) (if tsOk then tsEcr else 0) (if sackPermitted then blocks else [])).
+Proof. exact seg_frame_wf4. Qed.
+Print Assumptions C06_seg_frame_wf4.
+
+Theorem C06_udp_frame_wf4_partial : forall r data sp dp ttl c,
+  let L := 8 + vsize data in
+  rOffload r = false ->
+  length (rLocal r) = 4%nat -> length (rRemote r) = 4%nat -> bytes_ok (rLocal r) -> bytes_ok (rRemote r) ->
+  Rfc.src4_ok (rLocal r) = true ->
+  0 <= sp < 65536 -> 0 <= dp < 65536 ->
+  Forall bytes_ok data -> nonfinal_even data -> vsize data <= 65507 -> 1 <= ttl < 256 ->
+  xsum_of (rLocal r) (rRemote r) 17 L (udp_hdr sp dp L 0 ++ concat data) <> 0 ->
+  exists hdr frame,
+    send_udp r data sp dp = Some hdr /\
+    ipv4_write r hdr data 17 ttl c = Some (frame, bucket_after (20 + L) c) /\
+    Rfc.wf_ipv4 false frame = true /\
+    Rfc.view_ip4 frame = Rfc.mkIV (rLocal r) (rRemote r) 17 ttl (id_of (20 + L) c) (hdr ++ concat data) /\
+    Rfc.view_udp (hdr ++ concat data) = Rfc.mkUV sp dp L (concat data).
+Proof. exact udp_frame_wf4_partial. Qed.
+Print Assumptions C06_udp_frame_wf4_partial.
+
+Theorem C06_udp_frame_wf6_partial : forall r data sp dp ttl,
+  let L := 8 + vsize data in
+  rOffload r = false ->
+  length (rLocal r) = 16%nat -> length (rRemote r) = 16%nat -> bytes_ok (rLocal r) -> bytes_ok (rRemote r) ->
+  nth 0 (rLocal r) 0 <> 255 ->
+  0 <= sp < 65536 -> 0 <= dp < 65536 ->
+  Forall bytes_ok data -> nonfinal_even data -> vsize data <= 65527 -> 1 <= ttl < 256 ->
+  xsum_of (rLocal r) (rRemote r) 17 L (udp_hdr sp dp L 0 ++ concat data) <> 0 ->
+  exists hdr frame,
+    send_udp r data sp dp = Some hdr /\
+    ipv6_write r hdr data 17 ttl = Some frame /\
+    Rfc.wf_ipv6 false frame = true /\
+    Rfc.view_ip6 frame = Rfc.mkIV (rLocal r) (rRemote r) 17 ttl 0 (hdr ++ concat data) /\
+    Rfc.view_udp (hdr ++ concat data) = Rfc.mkUV sp dp L (concat data).
+Proof. exact udp_frame_wf6_partial. Qed.
+Print Assumptions C06_udp_frame_wf6_partial.
+
+Theorem C06_udp_zero_checksum_refuted :
+  exists r data sp dp ttl c hdr frame c',
+    rOffload r = false /\ length (rLocal r) = 4%nat /\ Forall bytes_ok data /\ vsize data <= 65507 /\
+    send_udp r data sp dp = Some hdr /\ ipv4_write r hdr data 17 ttl c = Some (frame, c') /\
+    Rfc.wf_ipv4 false frame = false /\ Rfc.b16 hdr 6 = 0.
+Proof. exact udp_zero_checksum_refuted. Qed.
+Print Assumptions C06_udp_zero_checksum_refuted.
+
+Theorem C06_icmp4_echo_reply_wf : forall r data ttl c,
+  length (rLocal r) = 4%nat -> length (rRemote r) = 4%nat -> bytes_ok (rLocal r) -> bytes_ok (rRemote r) ->
+  Rfc.src4_ok (rLocal r) = true ->
+  bytes_ok data -> (4 <= length data)%nat -> Z.of_nat (length data) <= 65511 -> 1 <= ttl < 256 ->
+  let L := 4 + Z.of_nat (length data) in
+  exists hdr pl frame,
+    send_ping4 0 data = Some (hdr, pl) /\
+    ipv4_write r hdr [pl] 1 ttl c = Some (frame, bucket_after (20 + L) c) /\
+    Rfc.wf_ipv4 false frame = true /\
+    Rfc.view_ip4 frame = Rfc.mkIV (rLocal r) (rRemote r) 1 ttl (id_of (20 + L) c) (hdr ++ pl) /\
+    Rfc.b8 (hdr ++ pl) 0 = 0 /\ Rfc.b8 (hdr ++ pl) 1 = 0 /\ skipn 4 (hdr ++ pl) = data.
+Proof. exact icmp4_echo_reply_wf. Qed.
+Print Assumptions C06_icmp4_echo_reply_wf.
+
+Theorem C06_icmp6_echo_reply_wf : forall r x2 x3 i0 i1 q0 q1 more vv ttl,
+  length (rLocal r) = 16%nat -> length (rRemote r) = 16%nat -> bytes_ok (rLocal r) -> bytes_ok (rRemote r) ->
+  nth 0 (rLocal r) 0 <> 255 ->
+  is_byte i0 -> is_byte i1 -> is_byte q0 -> is_byte q1 ->
+  Forall bytes_ok vv -> nonfinal_even vv -> 8 + vsize vv <= 65535 -> 1 <= ttl < 256 ->
+  let h := 128 :: 0 :: x2 :: x3 :: i0 :: i1 :: q0 :: q1 :: more in
+  exists pkt frame,
+    icmp6_echo_reply r h vv = Some pkt /\
+    ipv6_write r pkt vv 58 ttl = Some frame /\
+    Rfc.wf_ipv6 false frame = true /\
+    Rfc.view_ip6 frame = Rfc.mkIV (rLocal r) (rRemote r) 58 ttl 0 (pkt ++ concat vv) /\
+    Rfc.b8 pkt 0 = 129 /\ Rfc.b8 pkt 1 = 0 /\ skipn 4 (pkt ++ concat vv) = [i0; i1; q0; q1] ++ concat vv.
+Proof. exact icmp6_echo_reply_wf. Qed.
+Print Assumptions C06_icmp6_echo_reply_wf.
+
+Theorem C06_arp_request_wf : forall mac spa tpa,
+  length mac = 6%nat -> length spa = 4%nat -> length tpa = 4%nat -> nth 0 mac 0 mod 2 = 0 ->
+  exists p, arp_request mac spa tpa = Some p /\ Rfc.wf_arp p = true /\
+    Rfc.arp_op_of p = 1 /\ Rfc.arp_sha p = mac /\ Rfc.arp_spa p = spa /\ Rfc.arp_tpa p = tpa.
+Proof. exact arp_request_wf. Qed.
+Print Assumptions C06_arp_request_wf.
+
+Theorem C06_arp_reply_wf : forall mac reqSHA reqTPA reqSPA,
+  length mac = 6%nat -> length reqSHA = 6%nat -> length reqTPA = 4%nat -> length reqSPA = 4%nat ->
+  nth 0 mac 0 mod 2 = 0 -> nth 0 reqSHA 0 mod 2 = 0 -> Rfc.all_eq 0 reqSHA = false ->
+  exists p, arp_reply mac reqSHA reqTPA reqSPA = Some p /\ Rfc.wf_arp p = true /\
+    Rfc.arp_op_of p = 2 /\ Rfc.arp_sha p = mac /\ Rfc.arp_spa p = reqTPA /\
+    Rfc.arp_tha p = reqSHA /\ Rfc.arp_tpa p = reqSPA.
+Proof. exact arp_reply_wf. Qed.
+Print Assumptions C06_arp_reply_wf.
+
+Theorem C06_eth_write_frame : forall r ep proto pkt,
+  length (rRemoteLink r) = 6%nat -> 0 <= proto < 65536 ->
+  let src := match rLocal r with [] => ep | _ => rLocalLink r end in
+  length src = 6%nat ->
+  exists f, eth_write r ep proto pkt = Some f /\
+    Rfc.eth_dst f = rRemoteLink r /\ Rfc.eth_src f = src /\ Rfc.eth_type_of f = proto /\ skipn 14 f = pkt.
+Proof. exact eth_write_frame. Qed.
+Print Assumptions C06_eth_write_frame.
